@@ -74,6 +74,11 @@ def family(ctx):
         add(B.vhdx(meta_count=mc, pad_items_before=3, tail=140000 if mc < 2048 else 2300000), 'meta_count=%d' % mc)
     for il in (0, 8, 65535, 65536, 65537, (1 << 32) - 1):
         add(B.vhdx(item_length=il, tail=700000, meta_len_field=0xffffffff), 'item_length=%d' % il)
+    # the region-table *length* field of the metadata region (unused today)
+    for ml in (0, 1, 4096, 65535, 65536, 65537):
+        add(B.vhdx(meta_len_field=ml, tail=700000), 'meta_length_field=%d' % ml)
+        add(B.vhdx(meta_len_field=ml, item_length=(1 << 32) - 1, tail=700000),
+            'meta_length_field=%d max item' % ml)
     add(B.vhdx(pad_items_before=2046, pad_items_after=0, item_length=(1 << 32) - 1, tail=700000),
         'full table + max item')
     add(B.vhdx(with_vds_entry=False, meta_len_field=0xffffffff, tail=700000), 'no vds entry, max meta length')
